@@ -152,7 +152,10 @@ def rand_project(rng):
         events.append(evs)
         expected += exp
         ctrls.append(c)
-    return {"op": "apidir", "files": files, "events": events, "expected": expected, "ctrls": ctrls}
+    c = {"op": "apidir", "files": files, "events": events, "expected": expected, "ctrls": ctrls}
+    if rng.random() < 0.1:
+        c["cli"] = True     # through the real `coca analysis -p dir` + `coca api -f -p dir` in fresh processes (coca_reporter/apis.json)
+    return c
 
 
 def gen(rng, tier):
